@@ -135,6 +135,14 @@ Theorem C20_checker_sound :
      refs_short_holds k len names ids lower).
 Proof. exact checker_sound_thm. Qed.
 
+(** Every clause the checker evaluates on a case: acceptance of a recorded answer means the
+    declarative statement [query_holds] (shortest lengths unique and minimal, resolutions
+    decided by the ids that exist - through the disambiguation set first where there is one -,
+    positions and visibility of a change's targets, ref-aware lengths). *)
+Theorem C20_query_ok_sound : forall (c : case) (q : query),
+  query_ok c (all_commits_of c) (all_changes_of c) q = true -> query_holds c q.
+Proof. exact query_ok_sound. Qed.
+
 Example C20_nonvacuous :
   let s1 : @table unit := [(dg "12a0", tt); (dg "12b4", tt); (dg "7f00", tt)] in
   let s2 : @table unit := [(dg "12a7", tt); (dg "c001", tt)] in
@@ -152,3 +160,4 @@ Print Assumptions C20_two_level.
 Print Assumptions C20_change_resolves_back.
 Print Assumptions C20_two_level_change.
 Print Assumptions C20_visible.
+Print Assumptions C20_query_ok_sound.
